@@ -26,7 +26,7 @@ class C07(Check):
         "buckets sharing the lattice and with clean restarts; same stream set on each backend; non-trivial = some "
         "stream of >=3 heartbeats produced both a merge and a non-merge; distinct = distinct (backend, op-kind sequence, stream shape)"
     )
-    expected_probes = ["merged", "not_merged", "zero_length_heartbeat", "end_ties_with_previous", "other_bucket_shares_end_instant", "restart_clean", "gap_exactly_pulsetime"]
+    expected_probes = ["merged", "not_merged", "zero_length_heartbeat", "end_ties_with_previous", "other_bucket_shares_end_instant", "restart_clean", "gap_exactly_pulsetime", "merged_event_longer_than_24h"]
     assumptions = ["one whole heartbeat (read newest, merge, replace_last|insert) is atomic, as aw-server guarantees by its lock", "heartbeat_reduce/heartbeat_merge themselves are the specification here (C08 is about them)"]
     real_components = Check.real_components + ["aw_transform.heartbeat_merge / heartbeat_reduce"]
 
@@ -46,7 +46,11 @@ class C07(Check):
         parties = []
         for k, b in enumerate(ids):
             pulse = r.choice([0, 0.001, 0.5, 1, 1, 2.5, 5, 60])
-            parties.append(actors.Watcher(rs["watch%d" % k], cfg, b, pulse))
+            unit = None
+            if r.random() < 0.12:
+                # an afk-style watcher: hours between heartbeats, merged events grow past 24 h
+                pulse, unit = r.choice([4 * 3600, 10 * 3600]), r.choice([3, 5]) * 3_600_000_000
+            parties.append(actors.Watcher(rs["watch%d" % k], cfg, b, pulse, unit))
         for k, b in enumerate(others):
             parties.append(actors.Importer(rs["imp%d" % k], cfg, b))
             parties.append(actors.Editor(rs["edit%d" % k], cfg, b))
@@ -117,6 +121,8 @@ class C07(Check):
                 if ob != b and any(t[1] + t[2] == m for t in v["events"]):
                     pr["other_bucket_shares_end_instant"] += 1
                     break
+        if any(t[2] > 86_400_000_000 for t in got_full):
+            pr["merged_event_longer_than_24h"] += 1
         world.view[b]["events"] = got_full
 
     def nontrivial(self, world, run, res):
